@@ -343,7 +343,7 @@ Lemma open_refuted_alloc : snd (open_sized_c12 sized_none w_hdr_big) = 268435468
 Proof. vm_compute. split; reflexivity. Qed.
 Lemma open_witnesses_guarded :
   fst (open_sized_c12 sized_all w_hdr12) = OErr /\ fst (open_sized_c12 sized_all w_hdr_wrap) = OErr /\
-  open_sized_c12 sized_all w_hdr_big = (OErr, 65536).
+  (open_sized_c12 sized_all w_hdr_big = (OErr, 65536)).
 Proof. vm_compute. repeat split; reflexivity. Qed.
 Lemma lookup_refuted_hash_len :
   fst (open_sized_c12 sized_none (w_idx 1 200)) = OOk (mk_hdr 1 1 26) /\
@@ -556,10 +556,12 @@ Proof. vm_compute. reflexivity. Qed.
 Lemma bt_refuted_alloc : snd (bt_unmarshal_c12 bt_none (w_bt 1099511627776)) = 8796093022208 /\ flen (w_bt 1099511627776) = 50.
 Proof. vm_compute. split; reflexivity. Qed.
 Lemma bt_refuted_get :
-  fst (bt_unmarshal_c12 bt_none (w_bt 1)) = OOk (mk_bt 0 431999 0 1) /  bt_get bt_none (mk_bt 0 431999 0 1) 5 = OPanic site_bt_index /\ bt_get bt_all (mk_bt 0 431999 0 1) 5 = OErr.
+  fst (bt_unmarshal_c12 bt_none (w_bt 1)) = OOk (mk_bt 0 431999 0 1) /\
+  bt_get bt_none (mk_bt 0 431999 0 1) 5 = OPanic site_bt_index /\ bt_get bt_all (mk_bt 0 431999 0 1) 5 = OErr.
 Proof. vm_compute. repeat split; reflexivity. Qed.
 Lemma bt_witnesses_guarded :
-  fst (bt_unmarshal_c12 bt_all (w_bt 4611686018427387904)) = OErr /\ bt_unmarshal_c12 bt_all (w_bt 1099511627776) = (OErr, 0) /  bt_unmarshal_c12 bt_all (w_bt 1) = (OOk (mk_bt 0 431999 0 1), 8).
+  fst (bt_unmarshal_c12 bt_all (w_bt 4611686018427387904)) = OErr /\ (bt_unmarshal_c12 bt_all (w_bt 1099511627776) = (OErr, 0)) /\
+  (bt_unmarshal_c12 bt_all (w_bt 1) = (OOk (mk_bt 0 431999 0 1), 8)).
 Proof. vm_compute. repeat split; reflexivity. Qed.
 
 (* ------------------------------------------------------------------ bucketteer header *)
@@ -617,7 +619,8 @@ Proof.
   destruct (read_incr bkt_chunk (flen file - 4) (le_dec (firstn 4 file))) as [okr a]. cbn [snd] in Ha. unfold bkt_chunk in Ha.
   destruct okr; cbn [negb]; [destruct (bkt_decode _)|]; cbn [fst snd]; (split; [discriminate|lia]).
 Qed.
-Lemma bkt_refuted_alloc : snd (bkt_open false ([255; 255; 255; 255] ++ bkt_magic)) = 4294967295 /                          bkt_open true ([255; 255; 255; 255] ++ bkt_magic) = (OErr, 1048576).
+Lemma bkt_refuted_alloc : snd (bkt_open false ([255; 255; 255; 255] ++ bkt_magic)) = 4294967295 /\
+                          (bkt_open true ([255; 255; 255; 255] ++ bkt_magic) = (OErr, 1048576)).
 Proof. vm_compute. split; reflexivity. Qed.
 
 (* ------------------------------------------------------------------ linked log: ReadWithSize *)
@@ -664,7 +667,9 @@ Proof.
   destruct (dec _); cbn [fst snd]; (split; [discriminate|lia]).
 Qed.
 Lemma ll_refuted : forall dec,
-  fst (ll_read false [5; 1; 2; 3; 4; 5] 0 0 dec) = OPanic site_ll_makeslice /  fst (ll_read false [5; 1; 2; 3; 4; 5] 0 6 dec) = OPanic site_ll_slice /  fst (ll_read true [5; 1; 2; 3; 4; 5] 0 0 dec) = OErr /\ fst (ll_read true [5; 1; 2; 3; 4; 5] 0 6 dec) = OErr.
+  fst (ll_read false [5; 1; 2; 3; 4; 5] 0 0 dec) = OPanic site_ll_makeslice /\
+  fst (ll_read false [5; 1; 2; 3; 4; 5] 0 6 dec) = OPanic site_ll_slice /\
+  fst (ll_read true [5; 1; 2; 3; 4; 5] 0 0 dec) = OErr /\ fst (ll_read true [5; 1; 2; 3; 4; 5] 0 6 dec) = OErr.
 Proof. intros dec. vm_compute. repeat split; reflexivity. Qed.
 
 (* ------------------------------------------------------------------ kind dispatch and the GetBlock transaction loop *)
@@ -672,7 +677,8 @@ Definition kind_of (g : bool) (data : list N) : ores N :=
   if (length data <? 2)%nat then (if g then OErr else OPanic site_kind_index) else OOk (nth 1 data 0).
 Theorem kind_of_total : forall data s, kind_of true data <> OPanic s.
 Proof. intros data s. unfold kind_of. destruct (_ <? _)%nat; discriminate. Qed.
-Lemma kind_of_refuted : kind_of false [130] = OPanic site_kind_index /\ kind_of false [] = OPanic site_kind_index /                        kind_of true [130] = OErr.
+Lemma kind_of_refuted : kind_of false [130] = OPanic site_kind_index /\ kind_of false [] = OPanic site_kind_index /\
+                        kind_of true [130] = OErr.
 Proof. vm_compute. repeat split; reflexivity. Qed.
 
 (* GetBlock (JSON-RPC and gRPC): [fetched] = for every transaction link of the block, whether the fetch + decode
@@ -682,5 +688,6 @@ Definition assemble_block (g : bool) (fetched : list bool) : ores nat :=
   else if g then OErr else OPanic site_nil_tx.
 Theorem assemble_block_total : forall fetched s, assemble_block true fetched <> OPanic s.
 Proof. intros f s. unfold assemble_block. destruct (forallb _ f); discriminate. Qed.
-Lemma assemble_block_refuted : assemble_block false [true; false; true] = OPanic site_nil_tx /                               assemble_block true [true; false; true] = OErr.
+Lemma assemble_block_refuted : assemble_block false [true; false; true] = OPanic site_nil_tx /\
+                               assemble_block true [true; false; true] = OErr.
 Proof. vm_compute. split; reflexivity. Qed.
